@@ -3,7 +3,13 @@ package main
 // splitmix64: every random choice of the harness derives from one seed, so a run replays exactly.
 type rng struct{ s uint64 }
 
-func newRng(seed uint64) *rng { return &rng{s: seed*0x9E3779B97F4A7C15 + 0x1234567} }
+func newRng(seed uint64) *rng {
+	// scramble the seed so that neighbouring seeds do not give shifted copies of one stream
+	z := seed + 0x6A09E667F3BCC909
+	z = (z ^ (z >> 30)) * 0xBF58476D1CE4E5B9
+	z = (z ^ (z >> 27)) * 0x94D049BB133111EB
+	return &rng{s: z ^ (z >> 31)}
+}
 
 func (r *rng) next() uint64 {
 	r.s += 0x9E3779B97F4A7C15
